@@ -646,6 +646,9 @@ func (re *Regexp) GroupNumberFromName(name string) int {
 	}
 
 	// convert to an int if it looks like a number
+	if len(name) == 0 {
+		return -1
+	}
 	result := 0
 	for i := 0; i < len(name); i++ {
 		ch := name[i]
@@ -656,6 +659,10 @@ func (re *Regexp) GroupNumberFromName(name string) int {
 
 		result *= 10
 		result += int(ch - '0')
+		if result >= re.capsize {
+			// out of range already: stop before a long digit string wraps around
+			return -1
+		}
 	}
 
 	// return int if it's in range
